@@ -40,6 +40,12 @@ def _engine():
     return _ENG
 
 
+def _init_worker(proto: dict, tree: str) -> None:
+    global _PROTO, TREE
+    _PROTO = proto
+    TREE = tree
+
+
 def _worker(job: tuple) -> dict:
     key, tier = job
     from pyvc.contract import REGISTRY
@@ -148,8 +154,9 @@ def main() -> int:
     results: list[dict] = []
     if jobs:
         nproc = min(int(os.environ.get("PYVC_PROCS", "16")), len(jobs))
-        ctx = mp.get_context("fork")
-        with ctx.Pool(nproc) as pool:
+        # spawn, not fork: z3 state created in the parent (contexts, timer threads) is not fork-safe
+        ctx = mp.get_context("spawn")
+        with ctx.Pool(nproc, initializer=_init_worker, initargs=(_PROTO, TREE)) as pool:
             results = pool.map(_worker, jobs, chunksize=1)
     errors = [r for r in results if r.get("error")]
     rows = [dict(row, contract=r["key"]) for r in results for row in r["rows"] if pid in row["serves"]]
